@@ -770,8 +770,7 @@ def explore_volume(cx: VolCtx):
                 rec = known[seq2[:i + 1]]
                 if runA["states"][i]["V"] != rec["V"] or runA["states"][i]["C"] != rec["C"]:
                     raise AssertionError(f"replay divergence on {cx.name} {seq2} step {i}")
-            pos = "first_operation" if not seq else "after_" + seq[-1][0]
-            cls = f"{pos}:{cx.icls}"
+            cls = "first_operation_of_the_block" if not seq else "later_operation_of_the_block"
             after, sres = None, None
             if runA["exc"] is not None:
                 k, exn, msg = runA["exc"]
